@@ -42,14 +42,24 @@ def _key(name):
     return "~" + engine._tail(name, 2) if not name.startswith("<") else name
 
 
+CONVERSION_TRAITS = ("std::convert::From", "std::convert::Into", "std::convert::TryFrom", "std::convert::TryInto", "std::str::FromStr",
+                     "std::convert::AsRef", "std::ops::Deref", "std::borrow::Borrow", "std::default::Default")
+
+
 def is_helper(body):
     if body.kind == "Closure":
         return False
     if body.j.get("impl_trait") and not str(body.j.get("impl_trait")).startswith(body.prog.facts.get("crate", "txtpp") + "::"):
         # impls of foreign traits are reached through the trait's users (fmt, Drop ..): never spliced — except hand-written conversion
         # impls of the command-line front end (`impl From<&Flags> for Config`), which are called directly where the Config is built
-        if not (getattr(body.prog, "label", None) == "bin" and not body.span.get("exp") and
-                str(body.j.get("impl_trait")).startswith(("std::convert::From", "std::convert::Into", "std::default::Default"))):
+        it = str(body.j.get("impl_trait"))
+        if getattr(body.prog, "label", None) == "bin":
+            if not (not body.span.get("exp") and it.startswith(("std::convert::From", "std::convert::Into", "std::default::Default"))):
+                return False
+        elif not (not body.span.get("exp") and it.startswith(CONVERSION_TRAITS)):
+            # .. and, in the library, hand-written conversion impls that are NOT reviewed functions (a new `impl FromStr for DirectiveType`
+            # that the reviewed `TryFrom<&str>` now delegates to, a new `Deref for AbsPath`): they are called directly (or through
+            # `str::parse` / `into` / `try_into`, see _target) and are the new home of code the rules are stated on
             return False
     if getattr(body.prog, "label", None) == "bin":
         # the command-line front end has one anchor, `main`: how the flags reach Config is read off main's normal form, whichever
@@ -169,6 +179,21 @@ def _target(prog, t, helpers):
                 if b is not None and str(b.j.get("impl_trait", "")).startswith("std::convert::From") and b.arg_count == 1 and \
                         b.locals[1]["ty"] == ta[0]["ty"] and b.locals[0]["ty"] == ta[1]["ty"]:
                     return b, False
+    # `s.parse::<T>()` is `<T as FromStr>::from_str(s)`; `x.try_into()` is the crate's `impl TryFrom<T> for U`
+    names = C.callee_names(t)
+    ta = t["callee"].get("targs") or []
+    if "std::str::<impl str>::parse" in names and len(ta) >= 1:
+        for n in helpers:
+            b = prog.bodies.get(n)
+            if b is not None and str(b.j.get("impl_trait", "")).startswith("std::str::FromStr") and b.arg_count == 1 and \
+                    n.startswith("<%s as " % ta[0]["ty"]):
+                return b, False
+    if "<T as std::convert::TryInto<U>>::try_into" in names and len(ta) == 2:
+        for n in helpers:
+            b = prog.bodies.get(n)
+            if b is not None and str(b.j.get("impl_trait", "")).startswith("std::convert::TryFrom") and b.arg_count == 1 and \
+                    b.locals[1]["ty"] == ta[0]["ty"] and n.startswith("<%s as " % ta[1]["ty"]):
+                return b, False
     return None, False
 
 
@@ -800,7 +825,167 @@ def resolve_borrows(j):
     return nj
 
 
+FN_CALLS = ("std::ops::FnOnce::call_once", "std::ops::FnMut::call_mut", "std::ops::Fn::call")
+
+
+def specialise_closure_params(prog):
+    """`fn spawn<F: FnOnce() -> R>(&self, task: F) { pool.execute(move || send(task())) }` called with a closure literal: the helper and
+    the closures it defines are copied per call site with F := that closure, so that `task()` inside the inner closure is a direct call
+    of a known closure body (and is spliced like one). Pure monomorphisation of a generic helper at a call site whose type argument is a
+    closure of this crate; nothing else is touched. Returns a new Program, or `prog` itself when there is nothing to do."""
+    import copy
+    import json as _json
+    helpers = {n for n, b in prog.bodies.items() if is_helper(b)}
+    kids = {}
+    for n, b in prog.bodies.items():
+        if b.kind == "Closure":
+            kids.setdefault(b.j.get("root"), []).append(b)
+    new_bodies = []
+    made = {}
+    ident = re.compile(r"^[A-Z][A-Za-z0-9_]*$")
+    changed_callers = {}
+    for n, b in prog.bodies.items():
+        for bi, blk in enumerate(b.j["blocks"]):
+            t = blk["term"]
+            if t.get("k") != "call" or not isinstance(t.get("callee"), dict):
+                continue
+            hn = next((x for x in C.callee_names(t) if x in helpers and x in prog.bodies), None)
+            if hn is None:
+                continue
+            cl_targs = [a for a in (t["callee"].get("targs") or []) if a.get("closure") in prog.bodies]
+            if len(cl_targs) != 1:
+                continue
+            c1 = cl_targs[0]["closure"]
+            H = prog.bodies[hn]
+            # the type parameter that is called: targs[0] of an Fn* call in H or in a closure of H
+            params = set()
+            for hb in [H] + kids.get(hn, []):
+                for bb2, t2 in hb.calls(live_only=False):
+                    if C.callee_name(t2) in FN_CALLS:
+                        ta = t2["callee"].get("targs") or []
+                        if ta and ident.match(ta[0].get("ty", "")):
+                            params.add(ta[0]["ty"])
+            if len(params) != 1 or not kids.get(hn):
+                continue
+            P = next(iter(params))
+            key = (hn, c1)
+            if key not in made:
+                tag = "<%s>" % c1
+                ren = {hn: hn + tag}
+                for kb in kids.get(hn, []):
+                    ren[kb.name] = kb.name.replace(hn, hn + tag, 1)
+                cty = cl_targs[0]["ty"]
+
+                def fix(o):
+                    if isinstance(o, dict):
+                        if o.get("ty") == P:
+                            o["ty"] = cty
+                            o["closure"] = c1
+                        if o.get("fty") == P:
+                            o["fty"] = cty
+                        for k in ("closure", "def", "owner", "root", "parent", "name"):
+                            if isinstance(o.get(k), str) and o[k] in ren:
+                                o[k] = ren[o[k]]
+                        if o.get("k") == "call" and isinstance(o.get("callee"), dict):
+                            cal = o["callee"]
+                            ta = cal.get("targs") or []
+                            if cal.get("path") in FN_CALLS and ta and ta[0].get("ty") == P:
+                                cal["path"] = cal["rpath"] = c1
+                                cal["local"] = cal["rlocal"] = True
+                        for v in o.values():
+                            fix(v)
+                    elif isinstance(o, list):
+                        for v in o:
+                            fix(v)
+                U = prog.bodies[c1].j.get("upvars") or []
+                spec = []
+                for hb in [H] + kids.get(hn, []):
+                    nj = copy.deepcopy(hb.j)
+                    fix(nj)
+                    nj["specialised_from"] = hb.name
+                    spec.append(nj)
+                # flatten: an inner closure that captured the closure VALUE captures that closure's own upvars instead, and rebuilds the
+                # value on entry — `move || send(task())` with task := `move || f(a, b)` reads as `move || send((move || f(a, b))())`
+                # capturing a and b, which is what the unfactored code captures
+                for nj in spec:
+                    if nj.get("kind") != "Closure":
+                        continue
+                    ups = nj.get("upvars") or []
+                    ius = [i for i, u in enumerate(ups) if u.get("closure") == c1]
+                    if len(ius) != 1:
+                        continue
+                    iu = ius[0]
+                    kname = nj["name"]
+                    nj["upvars"] = ups[:iu] + copy.deepcopy(U) + ups[iu + 1:]
+                    newl = len(nj["locals"])
+                    nj["locals"].append({"ty": cty, "closure": c1})
+
+                    def is_up(pl, i=None):
+                        return pl["l"] == 1 and pl["p"] and pl["p"][0].get("k") == "field" and pl["p"][0].get("upvar") and \
+                            pl["p"][0].get("owner") == kname and (i is None or pl["p"][0]["i"] == i)
+
+                    def f(pl):
+                        if is_up(pl, iu):
+                            return {"l": newl, "p": pl["p"][1:]}
+                        if is_up(pl) and pl["p"][0]["i"] > iu:
+                            e = dict(pl["p"][0])
+                            e["i"] = e["i"] + len(U) - 1
+                            return {"l": pl["l"], "p": [e] + pl["p"][1:]}
+                        return None
+                    _map_places(nj["blocks"], lambda pl: f(pl) or pl)
+                    sp0 = nj["span"]
+                    ops = [{"k": "move", "pl": {"l": 1, "p": [{"k": "field", "i": iu + j, "fty": u["ty"], "owner": kname, "upvar": True}]}}
+                           for j, u in enumerate(U)]
+                    nj["blocks"][0]["stmts"].insert(0, {"k": "assign", "lhs": {"l": newl, "p": []},
+                                                        "rv": {"k": "aggregate", "agg": {"k": "closure", "def": c1}, "ops": ops}, "span": sp0})
+                    for dp_ in nj.get("debug_places") or []:
+                        q = f(dp_["pl"])
+                        if q is not None:
+                            dp_["pl"] = q
+                    # where this closure is built (in the specialised helper): pass the parts instead of the value
+                    for hj in spec:
+                        for blk in hj["blocks"]:
+                            for st in blk["stmts"]:
+                                if st.get("k") == "assign" and st["rv"].get("k") == "aggregate" and st["rv"]["agg"].get("def") == kname:
+                                    o = st["rv"]["ops"][iu]
+                                    pl = o.get("pl")
+                                    if pl is None:
+                                        continue
+                                    parts = [{"k": "move", "pl": {"l": pl["l"], "p": pl["p"] + [
+                                        {"k": "field", "i": j, "fty": u["ty"], "owner": c1, "upvar": True}]}} for j, u in enumerate(U)]
+                                    st["rv"]["ops"] = st["rv"]["ops"][:iu] + parts + st["rv"]["ops"][iu + 1:]
+                new_bodies += spec
+                made[key] = ren[hn]
+            changed_callers.setdefault(n, []).append((bi, made[key]))
+    if not new_bodies:
+        return prog
+    bodies = []
+    for j in prog.facts["bodies"]:
+        if j["name"] in changed_callers:
+            j = copy.deepcopy(j)
+            for bi, hname in changed_callers[j["name"]]:
+                cal = j["blocks"][bi]["term"]["callee"]
+                cal["path"] = cal["rpath"] = hname
+            bodies.append(j)
+        else:
+            bodies.append(j)
+    facts2 = dict(prog.facts)
+    facts2["bodies"] = bodies + new_bodies
+    p2 = C.Program(facts2, prog.label)
+    # a generic helper all of whose call sites were specialised is gone, with its closures
+    gone = set()
+    for (hn, c1) in made:
+        if not any(hn in names for b in p2.bodies.values() if b.name != hn and b.j.get("root") != hn
+                   for kind, bb, names, obj in C.body_mentions(b)):
+            gone.add(hn)
+    if gone:
+        facts2["bodies"] = [j for j in facts2["bodies"] if j["name"] not in gone and j.get("root") not in gone]
+        p2 = C.Program(facts2, prog.label)
+    return p2
+
+
 def inline_program(prog):
+    prog = specialise_closure_params(prog)
     helpers = {n for n, b in prog.bodies.items() if is_helper(b)}
     new_bodies = []
     consumed = set()
